@@ -333,3 +333,191 @@ Definition mon_never_blocks (c : scase) : bool :=
 Definition diffs (l : list scase) := bad_idx sdiff_case l.
 Definition mons (l : list scase) :=
   mon_idx [mon_accounting; mon_ledger; mon_reject_pure; mon_closed; mon_delivery; mon_never_blocks] l.
+
+(* ------------------------------------------------------------------ concurrent histories *)
+
+Inductive cop := CApi (o : op) | CFreeze.
+(* the merged log: a call is issued / has returned (thread t), a consumer thread received a seed *)
+Inductive cev := ECall (t : nat) (c : cop) | ERet (t : nat) (r : res) | EGot (t : nat) (i : id).
+
+Record ccase := CC {
+  cc_cap : nat;
+  cc_events : list cev;
+  cc_hung : bool;            (* the run did not become quiescent within the watchdog *)
+  cc_tokens : nat;           (* len(tokenPool) when quiescent *)
+  cc_table : list id;        (* GetStateTable() when quiescent, sorted *)
+  cc_after : list (op * res) (* calls issued after Stop() returned *) }.
+
+(* a call with the positions of its two events *)
+Record ccall := CL { cl_call : nat; cl_ret : nat; cl_op : cop; cl_res : res }.
+
+Fixpoint find_ret (t : nat) (pos : nat) (l : list cev) : option (nat * res) :=
+  match l with
+  | [] => None
+  | ERet t' r :: rest => if t' =? t then Some (pos, r) else find_ret t (S pos) rest
+  | _ :: rest => find_ret t (S pos) rest
+  end.
+
+Fixpoint calls_from (pos : nat) (l : list cev) : list ccall :=
+  match l with
+  | [] => []
+  | ECall t c :: rest =>
+      match find_ret t (S pos) rest with
+      | Some (p, r) => CL pos p c r :: calls_from (S pos) rest
+      | None => calls_from (S pos) rest          (* never returned (only when hung) *)
+      end
+  | _ :: rest => calls_from (S pos) rest
+  end.
+Definition calls_of (c : ccase) : list ccall := calls_from 0 (cc_events c).
+
+Definition count {A} (f : A -> bool) (l : list A) : nat := length (filter f l).
+
+Definition is_ins_ok (x : ccall) : bool :=
+  match cl_op x, cl_res x with CApi (OIns _), ROk => true | _, _ => false end.
+Definition is_fin_ok (x : ccall) : bool :=
+  match cl_op x, cl_res x with CApi (OFin _), ROk => true | _, _ => false end.
+Definition is_fb_ok (x : ccall) : bool :=
+  match cl_op x, cl_res x with CApi (OFb _), ROk => true | _, _ => false end.
+Definition call_id (x : ccall) : id :=
+  match cl_op x with CApi o => op_id o | CFreeze => 0 end.
+
+(* monitor 0 - no deadlock: the run became quiescent *)
+Definition cmon_no_hang (c : ccase) : bool := negb (cc_hung c).
+
+(* monitor 1 - bounded in-flight seeds: at every moment the inserts that have returned nil minus
+   the (successful) finishes that have been issued are at most the configured tokens *)
+Definition cmon_bounded (c : ccase) : bool :=
+  let cl := calls_of c in
+  forallb (fun tau =>
+    count (fun x => is_ins_ok x && (cl_ret x <=? tau)) cl
+    <=? cc_cap c + count (fun x => is_fin_ok x && (cl_call x <=? tau)) cl)
+    (seq 0 (length (cc_events c))).
+
+Fixpoint remove_all (l : list id) (from : list id) : list id :=
+  match l with [] => from | x :: r => remove_all r (rem1 Nat.eqb x from) end.
+
+(* monitor 2 - quiescent accounting: tokens in use = tracked seeds = accepted - finished *)
+Definition cmon_quiescent (c : ccase) : bool :=
+  if cc_hung c then true else
+  let cl := calls_of c in
+  let acc := map call_id (filter is_ins_ok cl) in
+  let fin := map call_id (filter is_fin_ok cl) in
+  (cc_tokens c =? length (cc_table c)) && (cc_tokens c <=? cc_cap c)
+  && (cc_tokens c + length fin =? length acc)
+  && nats_eqb (cc_table c) (sort (remove_all fin acc)) && nodupb (cc_table c).
+
+(* monitor 3 - every accepted seed reached a consumer, once per accepted insert / feedback *)
+Definition cmon_delivery (c : ccase) : bool :=
+  if cc_hung c then true else
+  let cl := calls_of c in
+  let sends := map call_id (filter (fun x => is_ins_ok x || is_fb_ok x) cl) in
+  let gots := flat_map (fun e => match e with EGot _ i => [i] | _ => [] end) (cc_events c) in
+  nats_eqb (sort sends) (sort gots).
+
+(* monitor 4 - rejections: feedback is refused as "not present" exactly for seeds that were never
+   accepted; before Freeze() is called a held seed's feedback is accepted; each accepted seed's
+   finish succeeds once, any other finish is "not found" *)
+Definition cmon_rejections (c : ccase) : bool :=
+  let cl := calls_of c in
+  let acc := map call_id (filter is_ins_ok cl) in
+  let freeze_call := match filter (fun x => match cl_op x with CFreeze => true | _ => false end) cl with
+                     | x :: _ => Some (cl_call x) | [] => None end in
+  forallb (fun x =>
+    match cl_op x with
+    | CApi (OFb i) =>
+        if memb Nat.eqb i acc
+        then negb (res_eqb (cl_res x) RNotPresent)
+             && (match freeze_call with
+                 | Some p => if cl_ret x <? p then res_eqb (cl_res x) ROk else true
+                 | None => res_eqb (cl_res x) ROk end)
+        else res_eqb (cl_res x) RNotPresent
+    | CApi (OFin i) =>
+        res_eqb (cl_res x) ROk || res_eqb (cl_res x) RNotFound
+    | _ => true
+    end) cl
+  && forallb (fun i => count (fun x => is_fin_ok x && (call_id x =? i)) cl <=? count (Nat.eqb i) acc)
+             (map call_id (filter is_fin_ok cl)).
+
+(* monitor 5 - closed: no insert / feedback issued after Freeze() returned is accepted; after
+   Stop() every call is "not initialized" *)
+Definition cmon_closed (c : ccase) : bool :=
+  let cl := calls_of c in
+  forallb (fun z =>
+    match cl_op z with
+    | CFreeze =>
+        forallb (fun x => match cl_op x with
+                          | CApi (OIns _) | CApi (OFb _) =>
+                              if cl_ret z <? cl_call x then negb (res_eqb (cl_res x) ROk) else true
+                          | _ => true end) cl
+    | _ => true
+    end) cl
+  && forallb (fun x => res_eqb (snd x) RNotInit) (cc_after c).
+
+(* ---- linearizability against the model at call granularity ---- *)
+
+Record ocall := OC { oc_t : nat; oc_op : cop; oc_lin : option res }.
+
+(* one call run to completion on the model (run() has a consumer with a large buffer); None: it blocks *)
+Definition atomic (s : state) (c : cop) : option (state * res) :=
+  match c with
+  | CFreeze => Some (settle fixed fuel0 (do_step fixed s Freeze), ROk)
+  | CApi o =>
+      let s' := settle fixed fuel0 (do_step fixed s (call_label o)) in
+      match lookup_ret o (new_rets s s') with
+      | Some r => Some (s', r)
+      | None => None
+      end
+  end.
+
+Fixpoint find_open (t : nat) (l : list ocall) : option ocall :=
+  match l with [] => None | x :: r => if oc_t x =? t then Some x else find_open t r end.
+Fixpoint remove_open (t : nat) (l : list ocall) : list ocall :=
+  match l with [] => [] | x :: r => if oc_t x =? t then r else x :: remove_open t r end.
+Fixpoint mark_open (t : nat) (res : res) (l : list ocall) : list ocall :=
+  match l with
+  | [] => []
+  | x :: r => if oc_t x =? t then OC t (oc_op x) (Some res) :: r else x :: mark_open t res r
+  end.
+
+(* Wing-Gong search, linearizing lazily: only when a return forces it.  Out of fuel = inconclusive = true. *)
+Fixpoint lin (fuel : nat) (s : state) (open : list ocall) (evs : list cev) : bool :=
+  match fuel with
+  | 0 => true
+  | S f =>
+      match evs with
+      | [] => true
+      | EGot _ _ :: r => lin f s open r
+      | ECall t c :: r => lin f s (OC t c None :: open) r
+      | ERet t res :: r =>
+          match find_open t open with
+          | None => false
+          | Some oc =>
+              match oc_lin oc with
+              | Some res' => res_eqb res res' && lin f s (remove_open t open) r
+              | None =>
+                  existsb (fun oc' =>
+                    match oc_lin oc' with
+                    | Some _ => false
+                    | None =>
+                        match atomic s (oc_op oc') with
+                        | None => false
+                        | Some (s', res') =>
+                            if oc_t oc' =? t
+                            then res_eqb res res' && lin f s' (remove_open t open) r
+                            else lin f s' (mark_open (oc_t oc') res' open) evs
+                        end
+                    end) open
+              end
+          end
+      end
+  end.
+
+Definition lin_limit : nat := 90.
+
+Definition cdiff_case (c : ccase) : bool :=
+  if cc_hung c || (lin_limit <? length (cc_events c)) then false
+  else negb (lin 400 (init (cc_cap c) 1000) [] (cc_events c)).
+
+Definition cdiffs (l : list ccase) := bad_idx cdiff_case l.
+Definition cmons (l : list ccase) :=
+  mon_idx [cmon_no_hang; cmon_bounded; cmon_quiescent; cmon_delivery; cmon_rejections; cmon_closed] l.
